@@ -13,7 +13,10 @@
 #include <etl/string.hpp>
 #include <etl/string_view.hpp>
 
+#include <algorithm>
+#include <iterator>
 #include <string>
+#include <string_view>
 
 using namespace vh;
 
@@ -30,6 +33,24 @@ struct Src {
     Src(Src const&)                    = delete;
     auto operator=(Src const&) -> Src& = delete;
     ~Src() { std::free(p); }
+};
+
+// an iterator over a character array that is NOT a pointer and NOT random access: Tag = etl::forward_iterator_tag
+// (multi-pass) or etl::input_iterator_tag (the library may only walk it once)
+template <typename Char, typename Tag>
+struct WrapIt {
+    using iterator_category = Tag;
+    using value_type        = Char;
+    using difference_type   = std::ptrdiff_t;
+    using pointer           = Char const*;
+    using reference         = Char const&;
+    Char const* p;
+    auto operator*() const -> Char const& { return *p; }
+    auto operator->() const -> Char const* { return p; }
+    auto operator++() -> WrapIt& { ++p; return *this; }
+    auto operator++(int) -> WrapIt { auto t = *this; ++p; return t; }
+    friend auto operator==(WrapIt a, WrapIt b) -> bool { return a.p == b.p; }
+    friend auto operator!=(WrapIt a, WrapIt b) -> bool { return a.p != b.p; }
 };
 
 // Q: the query operations (search / compare / replace / accessors ...) are compiled for this instantiation;
@@ -102,6 +123,146 @@ struct Run {
             Char const* l = src.p + src.n;
             impl([&] { e.append(f, l); });
             ref(true, [&] { r.append(f, l); });
+        } else if (op == "arr" || op == "arf" || op == "ari") {
+            // append(first, last) with etl::reverse_iterator<pointer> (random access, not contiguous: the characters
+            // arrive in reverse order), a forward-only and an input-only iterator
+            Src<Char> src(in.list());
+            Char const* f = src.p;
+            Char const* l = src.p + src.n;
+            if (op == "arr") {
+                impl([&] { e.append(etl::reverse_iterator<Char const*>(l), etl::reverse_iterator<Char const*>(f)); });
+                ref(true, [&] { r.append(std::reverse_iterator<Char const*>(l), std::reverse_iterator<Char const*>(f)); });
+            } else if (op == "arf") {
+                using It = WrapIt<Char, etl::forward_iterator_tag>;
+                impl([&] { e.append(It{f}, It{l}); });
+                ref(true, [&] { r.append(f, l); });
+            } else {
+                using It = WrapIt<Char, etl::input_iterator_tag>;
+                impl([&] { e.append(It{f}, It{l}); });
+                ref(true, [&] { r.append(f, l); });
+            }
+        } else if (op == "zr" || op == "zrr" || op == "zrf" || op == "krr" || op == "krf") {
+            // assign(first, last) / basic_inplace_string(first, last) with pointers, reverse and forward-only iterators
+            Src<Char> src(in.list());
+            Char const* f = src.p;
+            Char const* l = src.p + src.n;
+            using Rt = etl::reverse_iterator<Char const*>;
+            using Ft = WrapIt<Char, etl::forward_iterator_tag>;
+            if (op == "zr") {
+                impl([&] { e.assign(f, l); });
+                ref(true, [&] { r.assign(f, l); });
+            } else if (op == "zrr") {
+                impl([&] { e.assign(Rt(l), Rt(f)); });
+                ref(true, [&] { r.assign(std::reverse_iterator<Char const*>(l), std::reverse_iterator<Char const*>(f)); });
+            } else if (op == "zrf") {
+                impl([&] { e.assign(Ft{f}, Ft{l}); });
+                ref(true, [&] { r.assign(f, l); });
+            } else if (op == "krr") {
+                impl([&] { e = E(Rt(l), Rt(f)); });
+                ref(true, [&] { r = S(std::reverse_iterator<Char const*>(l), std::reverse_iterator<Char const*>(f)); });
+            } else {
+                impl([&] { e = E(Ft{f}, Ft{l}); });
+                ref(true, [&] { r = S(f, l); });
+            }
+        } else if (op == "aps" || op == "asps" || op == "ips" || op == "ars") {
+            // pointer / iterator arguments that point INTO the string itself: s.data() + off, count characters;
+            // (off, count) are reduced to a range of the string: off' = min(off, size()), count' = min(count, size() - off')
+            std::size_t i = 0;
+            if (op == "ips") { i = static_cast<std::size_t>(in.unum()); }
+            auto off = static_cast<std::size_t>(in.unum());
+            auto n   = static_cast<std::size_t>(in.unum());
+            auto clampE = [&] { off = std::min(off, e.size()); n = std::min(n, e.size() - off); };
+            auto ro = std::min(off, r.size());
+            auto rn = std::min(n, r.size() - ro);
+            if (op == "aps") {
+                impl([&] { clampE(); e.append(static_cast<Char const*>(e.data()) + off, n); });
+                ref(true, [&] { r.append(r.data() + ro, rn); });
+            } else if (op == "asps") {
+                impl([&] { clampE(); e.assign(static_cast<Char const*>(e.data()) + off, n); });
+                ref(true, [&] { r.assign(r.data() + ro, rn); });
+            } else if (op == "ips") {
+                impl([&] { clampE(); e.insert(i, static_cast<Char const*>(e.data()) + off, n); });
+                ref(i <= r.size(), [&] { r.insert(i, r.data() + ro, rn); });
+            } else {
+                impl([&] { clampE(); e.append(e.cbegin() + off, e.cbegin() + off + n); });
+                ref(true, [&] { r.append(r.cbegin() + static_cast<std::ptrdiff_t>(ro), r.cbegin() + static_cast<std::ptrdiff_t>(ro + rn)); });
+            }
+        } else if (op == "zeqs" || op == "zcss" || op == "acss" || op == "icss") {
+            // a C string argument that points into the string itself: s.c_str() + min(off, size())
+            std::size_t i = 0;
+            if (op == "icss") { i = static_cast<std::size_t>(in.unum()); }
+            auto off = static_cast<std::size_t>(in.unum());
+            auto ro  = std::min(off, r.size());
+            if (op == "zeqs") {
+                impl([&] { e = e.c_str() + std::min(off, e.size()); });
+                ref(true, [&] { r = r.c_str() + ro; });
+            } else if (op == "zcss") {
+                impl([&] { e.assign(e.c_str() + std::min(off, e.size())); });
+                ref(true, [&] { r.assign(r.c_str() + ro); });
+            } else if (op == "acss") {
+                impl([&] { e.append(e.c_str() + std::min(off, e.size())); });
+                ref(true, [&] { r.append(r.c_str() + ro); });
+            } else {
+                impl([&] { e.insert(i, e.c_str() + std::min(off, e.size())); });
+                ref(i <= r.size(), [&] { r.insert(i, r.c_str() + ro); });
+            }
+        } else if (op == "asts" || op == "pess" || op == "plss" || op == "ists" || op == "avss" || op == "ivss" || op == "zself" || op == "zvself" || op == "sws") {
+            // the string itself (or a view of it) as the argument
+            std::size_t i = 0;
+            if (op == "ists" || op == "ivss") { i = static_cast<std::size_t>(in.unum()); }
+            if (op == "asts") {
+                impl([&] { e.append(e); });
+                ref(true, [&] { r.append(r); });
+            } else if (op == "pess") {
+                impl([&] { e += e; });
+                ref(true, [&] { r += r; });
+            } else if (op == "plss") {
+                impl([&] { e = e + e; });
+                ref(true, [&] { r = r + r; });
+            } else if (op == "ists") {
+                impl([&] { e.insert(i, e); });
+                ref(i <= r.size(), [&] { r.insert(i, r); });
+            } else if (op == "avss") {
+                impl([&] { e.append(etl::basic_string_view<Char>(e)); });
+                ref(true, [&] { r.append(std::basic_string_view<Char>(r)); });
+            } else if (op == "ivss") {
+                impl([&] { e.insert(i, etl::basic_string_view<Char>(e)); });
+                ref(i <= r.size(), [&] { r.insert(i, std::basic_string_view<Char>(r)); });
+            } else if (op == "zself") {
+                impl([&] { e.assign(e); auto& alias = e; e = alias; });
+                ref(true, [&] { r.assign(r); });
+            } else if (op == "zvself") {
+                impl([&] { e.assign(etl::basic_string_view<Char>(e)); });
+                ref(true, [&] { r.assign(std::basic_string_view<Char>(r)); });
+            } else {
+                impl([&] { e.swap(e); });
+                ref(true, [&] {});
+            }
+        } else if (op == "asss" || op == "zsss" || op == "avsss" || op == "zvsss" || op == "isss" || op == "ivsss") {
+            // (str | view of the string itself, pos, count)
+            std::size_t i = 0;
+            if (op == "isss" || op == "ivsss") { i = static_cast<std::size_t>(in.unum()); }
+            auto p = static_cast<std::size_t>(in.unum());
+            auto n = static_cast<std::size_t>(in.unum());
+            if (op == "asss") {
+                impl([&] { e.append(e, p, n); });
+                ref(p <= r.size(), [&] { r.append(r, p, n); });
+            } else if (op == "zsss") {
+                impl([&] { e.assign(e, p, n); });
+                ref(p <= r.size(), [&] { r.assign(r, p, n); });
+            } else if (op == "avsss") {
+                impl([&] { e.append(etl::basic_string_view<Char>(e), p, n); });
+                ref(p <= r.size(), [&] { r.append(std::basic_string_view<Char>(r), p, n); });
+            } else if (op == "zvsss") {
+                impl([&] { e.assign(etl::basic_string_view<Char>(e), p, n); });
+                ref(p <= r.size(), [&] { r.assign(std::basic_string_view<Char>(r), p, n); });
+            } else if (op == "isss") {
+                impl([&] { e.insert(i, e, p, n); });
+                ref(i <= r.size() && p <= r.size(), [&] { r.insert(i, r, p, n); });
+            } else {
+                impl([&] { e.insert(i, etl::basic_string_view<Char>(e), p, n); });
+                ref(i <= r.size() && p <= r.size(), [&] { r.insert(i, std::basic_string_view<Char>(r), p, n); });
+            }
         } else if (op == "ip") {
             auto i = static_cast<std::size_t>(in.unum());
             Src<Char> src(in.list());
@@ -858,6 +1019,62 @@ struct Run {
         return true;
     }
 
+    // replace with a replacement that lies INSIDE the string itself:
+    // replaces (pos, count, s) / replace5s (pos, count, s, pos2, count2) / replaceps (pos, count, s.data() + off, count2) /
+    // replacezs (pos, count, s.c_str() + off) / replaceis (first, last, s) / replaceips (first, last, s.data() + off, count2) /
+    // replaceizs (first, last, s.c_str() + off); off <= size(), off + count2 <= size()
+    static bool replace_self(std::string const& op, Toks& in, Out& impl, Out& ref)
+    {
+        Src<Char> content(in.list());
+        auto a = static_cast<std::size_t>(in.unum());   // pos | first
+        auto b = static_cast<std::size_t>(in.unum());   // count | last
+        std::size_t off  = 0;
+        std::size_t cnt2 = 0;
+        if (op == "replace5s" || op == "replaceps" || op == "replaceips") {
+            off  = static_cast<std::size_t>(in.unum());
+            cnt2 = static_cast<std::size_t>(in.unum());
+        }
+        if (op == "replacezs" || op == "replaceizs") { off = static_cast<std::size_t>(in.unum()); }
+        if (content.n > Cap) {
+            impl.tok("contract");
+            return true;
+        }
+        bool const iter = op == "replaceis" || op == "replaceips" || op == "replaceizs";
+        if (iter && !(a <= b && b <= content.n)) { return false; }
+        if (op != "replace5s" && (off > content.n || (op != "replacezs" && op != "replaceizs" && cnt2 > content.n - off))) { return false; }
+        E e(static_cast<Char const*>(content.p), content.n);
+        S r(content.p, content.n);
+        guarded(impl, [&](Out& o) {
+            Char const* p = e.data() + (op == "replace5s" ? 0 : off);
+            if (op == "replaces") { e.replace(a, b, e); }
+            else if (op == "replace5s") { e.replace(a, b, e, off, cnt2); }
+            else if (op == "replaceps") { e.replace(a, b, p, cnt2); }
+            else if (op == "replacezs") { e.replace(a, b, p); }
+            else if (op == "replaceis") { e.replace(e.cbegin() + a, e.cbegin() + b, e); }
+            else if (op == "replaceips") { e.replace(e.cbegin() + a, e.cbegin() + b, p, cnt2); }
+            else { e.replace(e.cbegin() + a, e.cbegin() + b, p); }
+            o.tok("ok");
+            put_state(o, e);
+        });
+        if (iter || (a <= r.size() && (op != "replace5s" || off <= r.size()))) {
+            auto rf = [&] { return r.cbegin() + static_cast<std::ptrdiff_t>(a); };
+            auto rl = [&] { return r.cbegin() + static_cast<std::ptrdiff_t>(b); };
+            Char const* p = r.data() + (op == "replace5s" ? 0 : off);
+            if (op == "replaces") { r.replace(a, b, r); }
+            else if (op == "replace5s") { r.replace(a, b, r, off, cnt2); }
+            else if (op == "replaceps") { r.replace(a, b, p, cnt2); }
+            else if (op == "replacezs") { r.replace(a, b, p); }
+            else if (op == "replaceis") { r.replace(rf(), rl(), r); }
+            else if (op == "replaceips") { r.replace(rf(), rl(), p, cnt2); }
+            else { r.replace(rf(), rl(), p); }
+            if (r.size() <= Cap) {
+                ref.tok("ok");
+                put_state(ref, r);
+            }
+        }
+        return true;
+    }
+
     static bool run(std::string const& op, Toks& in, Out& impl, Out& ref)
     {
         if (op == "hist") { return hist(in, impl, ref); }
@@ -866,6 +1083,7 @@ struct Run {
             if (op == "replace") { return replace(in, impl, ref); }
             if (op == "replace5" || op == "replacep" || op == "replacez") { return replace_more(op, in, impl, ref); }
             if (op == "replacei" || op == "replaceip" || op == "replaceiz" || op == "replacef") { return replace_iter(op, in, impl, ref); }
+            if (op == "replaces" || op == "replace5s" || op == "replaceps" || op == "replacezs" || op == "replaceis" || op == "replaceips" || op == "replaceizs") { return replace_self(op, in, impl, ref); }
             auto k = op.substr(0, op.find('_'));
             if (k == "q" || k == "qd" || k == "cmp" || k == "copy") { return query(op, in, impl, ref); }
             return query2(op, in, impl, ref);
